@@ -870,7 +870,8 @@ class C15(Property):
     proof_module = "Proofs.C15"
     theorems = ["Flatland.C15.Proofs." + t for t in (
         "decides_partial", "C15_full_fails", "setWith_nontext_key_raises", "setWith_bad_pairs_raises",
-        "value_preserved", "messages", "true_verdict_records_nothing",
+        "value_preserved", "messages", "messages_total", "false_verdict_records_one", "true_verdict_records_nothing",
+        "verdict_shape",
         "luhn_pairs_eq_digits", "luhn10Check_eq", "notdup_first_kept",
         "decides_present", "decides_isTrue", "decides_isFalse", "decides_converted", "decides_valueIn",
         "decides_shorterThan", "decides_longerThan", "decides_lengthBetween",
@@ -878,7 +879,7 @@ class C15(Property):
         "decides_valueBetween", "decides_mapEqual", "decides_notDuplicated",
         "decides_hasAtLeast", "decides_hasAtMost", "decides_hasBetween",
         "decides_setWithKnownFields", "decides_setWithAllFields", "decides_luhn10")]
-    generated_obligations = []
+    generated_obligations = ["Flatland.C15.Proofs.shapes_ok"]
     quick_n = 100000
     thorough_n = 800000
     trusted_base = [
